@@ -11,6 +11,14 @@ Node terms (tuples):
   ("ref", rulename, flag) ("array", k, n) ("pair", a, b) ("empty",) ("alwaysfail",)
 flag in {"0", "1", "INHERITED"}.  Rule: dict(name, atom in {"true","false","INHERITED"},
 emit in {"Span","Expression","Both"}, boxed bool, body).  Grammar: dict(gid, rules, skipped).
+
+C19, the counted repetitions as `NeverFailedTypedNode` (skip types):
+  * a rule may carry `ignored = dict(k, max|None, elem)`: the `$ignored` argument of its `rule!` is then
+    `RepeatMin<Skipped<elem, Skipped<'i>, k>, 0>` / `RepeatMinMax<Skipped<elem, Skipped<'i>, k>, 0, max>` instead of the module's
+    `Skipped<'i>` (the trailing skip of the full entries `parse` / `check`);
+  * a grammar may carry `nf = [dict(name, k, max|None, pre, elem)]`: runner entries `nf_parse` / `nf_check` call
+    `<that type as NeverFailedTypedNode>::parse_with / check_with` DIRECTLY (vh_common::run_nf) after the node `pre` has been
+    run on a fresh stack and tracker.  S-expression items `(ignored <rule> <k> <max|-> <elem>)`, `(nf <name> <k> <max|-> <pre> <elem>)`.
 """
 import os
 from corpus import hexs, HERE, fill, PROFILE
@@ -105,6 +113,14 @@ class RustPrinter:
             return P + "AlwaysFail<'i>"
         raise ValueError(k)
 
+    def nf_ty(self, k, mx, elem):
+        """the counted repetition with MIN = 0 (the forms that implement NeverFailedTypedNode)"""
+        P = "pest_typed::predefined_node::"
+        inner = f"{P}Skipped<{self.ty(elem)}, Skipped<'i>, {k}>"
+        if mx is None:
+            return f"{P}RepeatMin<{inner}, 0>"
+        return f"{P}RepeatMinMax<{inner}, 0, {mx}>"
+
 
 def node_sexp(n, ruleidx):
     k = n[0]
@@ -137,14 +153,25 @@ def node_sexp(n, ruleidx):
     raise ValueError(k)
 
 
-def grammar_sexp(g):
-    """(nodegrammar <gid> (skipped <node>) (rule <name> <atom> <emit> <boxed> <node>) ...); rule 0 is EOI."""
+def grammar_sexp(g, nf_items=False):
+    """(nodegrammar <gid> (skipped <node>) (rule <name> <atom> <emit> <boxed> <node>) ...); rule 0 is EOI.
+    With `nf_items` (the T-raw suite) the `(ignored ..)` / `(nf ..)` items follow the rules (Driver/NF.lean reads them;
+    `Driver.toGrammar` and the printer round trip of checks/tgen.py see the plain form)."""
     ruleidx = {"EOI": 0}
     for i, r in enumerate(g["rules"]):
         ruleidx[r["name"]] = i + 1
     parts = [f"(nodegrammar {g['gid']} (skipped {node_sexp(g['skipped'], ruleidx)})"]
     for r in g["rules"]:
         parts.append(f"(rule {r['name']} {r['atom']} {r['emit']} {'true' if r['boxed'] else 'false'} {node_sexp(r['body'], ruleidx)})")
+    if not nf_items:
+        return " ".join(parts) + ")"
+    mx = lambda m: "-" if m is None else m
+    for r in g["rules"]:
+        ig = r.get("ignored")
+        if ig:
+            parts.append(f"(ignored {r['name']} {ig['k']} {mx(ig['max'])} {node_sexp(ig['elem'], ruleidx)})")
+    for it in g.get("nf", []):
+        parts.append(f"(nf {it['name']} {it['k']} {mx(it['max'])} {node_sexp(it['pre'], ruleidx)} {node_sexp(it['elem'], ruleidx)})")
     return " ".join(parts) + ")"
 
 
@@ -164,6 +191,8 @@ pub mod t_@GID@ {
 }
 '''
 FN_T = '''fn t_@GID@_@RULE@<'i>(e: &str, f: &str, a: usize, b: usize, i: &'i str) -> String { run_typed::<t_@GID@::Rule, t_@GID@::rules::@RULE@<'i, 1>>(e, f, a, b, i) }
+'''
+FN_NF = '''fn nf_@GID@_@NAME@<'i>(e: &str, f: &str, a: usize, b: usize, i: &'i str) -> String { vh_common::run_nf::<t_@GID@::Rule, t_@GID@::NFPRE_@NAME@<'i>, t_@GID@::NF_@NAME@<'i>>(e, f, a, b, i) }
 '''
 
 
@@ -198,10 +227,20 @@ pest = "=2.7.14"
             rules = []
             for r in g["rules"]:
                 inner = pr.ty(r["body"])
-                rules.append(f'pest_typed::rule!({r["name"]}, "raw", super::Rule, super::Rule::{r["name"]}, {inner}, Skipped<\'i>, {r["atom"]}, {r["emit"]}, {"true" if r["boxed"] else "false"});')
+                ig = r.get("ignored")
+                ignored = pr.nf_ty(ig["k"], ig["max"], ig["elem"]) if ig else "Skipped<'i>"
+                rules.append(f'pest_typed::rule!({r["name"]}, "raw", super::Rule, super::Rule::{r["name"]}, {inner}, {ignored}, {r["atom"]}, {r["emit"]}, {"true" if r["boxed"] else "false"});')
                 code.append(fill(FN_T, GID=g["gid"], RULE=r["name"]))
                 arms.append(f'        ("{g["gid"]}", "{r["name"]}") => Some((t_{g["gid"]}_{r["name"]} as CaseFn, None)),')
-            code.append(fill(MOD, GID=g["gid"], RULENAMES=", ".join(r["name"] for r in g["rules"]),
+            extra = []
+            for it in g.get("nf", []):
+                extra.append(f"pub type NF_{it['name']}<'i> = {pr.nf_ty(it['k'], it['max'], it['elem'])};")
+                extra.append(f"pub type NFPRE_{it['name']}<'i> = {pr.ty(it['pre'])};")
+                code.append(fill(FN_NF, GID=g["gid"], NAME=it["name"]))
+                arms.append(f'        ("{g["gid"]}", "{it["name"]}") => Some((nf_{g["gid"]}_{it["name"]} as CaseFn, None)),')
+            # the type aliases of the direct-call items live at module level (MOD itself is shared with accgen.py: unchanged)
+            mod = MOD.replace("    pub mod rules {", "    " + "\n    ".join(extra) + "\n    pub mod rules {", 1) if extra else MOD
+            code.append(fill(mod, GID=g["gid"], RULENAMES=", ".join(r["name"] for r in g["rules"]),
                              SKIPPED=skipped, WRAPPERS="\n".join(pr.wrappers), RULES="\n        ".join(rules)))
         code.append("fn dispatch(gid: &str, rule: &str) -> Option<(CaseFn, Option<fn(&str) -> String>)> {\n    match (gid, rule) {\n" + "\n".join(arms) + "\n        _ => None,\n    }\n}\n")
         code.append("fn main() { vh_common::serve(dispatch); }\n")
@@ -242,14 +281,24 @@ def rep_grammars():
         "c": ("choice", [S("ab"), S("a")]),
         "n": ("rep", "0", 1, 2, S("a")),
         "k": ("seq", "0", [("push", S("a")), ("pop",)]),
+        # the element is a rule struct: every element (and, WS being one too, every skipped blank) carries its span
+        "r": ("ref", "E", "0"),
     }
     for ek, el in elems.items():
-        rules = [ws_rule()]
+        rules = [ws_rule()] + ([rule("E", ("choice", [S("ab"), S("a")]))] if ek == "r" else [])
         for skip in ("0", "1"):
             for mn in range(0, 5):
                 rules.append(rule(f"min_{skip}_{mn}", ("rep", skip, mn, None, el)))
                 for mx in range(0, 5):
                     rules.append(rule(f"mm_{skip}_{mn}_{mx}", ("rep", skip, mn, mx, el)))
+        # skip flag written `INHERITED` (as the generator writes it inside `^`-less rules): the rule run directly is
+        # instantiated with INHERITED = 1; `c0_*` reaches it with INHERITED = 0 (skip off), `c1_*` with 1
+        for mn in range(0, 3):
+            for mx in (None, 1, 2, 4):
+                nm = f"{mn}_{'u' if mx is None else mx}"
+                rules.append(rule(f"inh_{nm}", ("rep", "INHERITED", mn, mx, el)))
+                rules.append(rule(f"c0_{nm}", ("ref", f"inh_{nm}", "0")))
+                rules.append(rule(f"c1_{nm}", ("seq", "0", [("ref", f"inh_{nm}", "1"), ("opt", S("b"))])))
         gs.append(dict(gid=f"rep_{ek}", rules=rules, skipped=WS_SKIP))
     # bounded repetition of elements that can match WITHOUT consuming (optional, nested repetition with MIN 0,
     # stack operations): greedy up to MAX even at end of input; only bounded forms (an unbounded one would not terminate)
@@ -265,13 +314,22 @@ def rep_grammars():
                 for mx in range(0, 5):
                     rules.append(rule(f"mm_{skip}_{mn}_{mx}", ("rep", skip, mn, mx, el)))
                     rules.append(rule(f"mt_{skip}_{mn}_{mx}", ("seq", skip, [("rep", skip, mn, mx, el), S("b")])))
+        for mn in (0, 2):
+            for mx in (1, 3):
+                rules.append(rule(f"inh_{mn}_{mx}", ("seq", "INHERITED", [("rep", "INHERITED", mn, mx, el), S("b")])))
+                rules.append(rule(f"c0_{mn}_{mx}", ("ref", f"inh_{mn}_{mx}", "0")))
         gs.append(dict(gid=f"rep_null_{ek}", rules=rules, skipped=WS_SKIP))
     rules = [ws_rule()]
     P2 = [("push", ("choice", [S("a"), S("b")])), ("push", ("choice", [S("b"), S("a")]))]
-    for mn in range(0, 4):
-        for mx in range(0, 4):
+    P3 = P2 + [("push", ("opt", S(" ")))]
+    for mn in range(0, 5):
+        for mx in range(0, 5):
             rules.append(rule(f"dr_{mn}_{mx}", ("seq", "0", P2 + [("rep", "0", mn, mx, ("drop",)), ("peekall",)])))
             rules.append(rule(f"pk_{mn}_{mx}", ("seq", "1", [("push", ("opt", S("a")))] + [("rep", "1", mn, mx, ("peek",)), ("opt", S("b"))])))
+            # POP as the element: every iteration consumes the text of one entry and removes it; a failing POP has
+            # already removed its entry and the iteration must give it back
+            rules.append(rule(f"pp_{mn}_{mx}", ("seq", "0", P3 + [("rep", "INHERITED", mn, mx, ("pop",)), ("opt", ("peekall",))])))
+        rules.append(rule(f"du_{mn}", ("seq", "0", P2 + [("rep", "0", mn, None, ("drop",)), ("opt", ("peek",))])))
     gs.append(dict(gid="rep_stackops", rules=rules, skipped=WS_SKIP))
     # arrays, pairs, optionals, skip-n-chars, skip-repeat
     rules = [ws_rule()]
@@ -283,6 +341,68 @@ def rep_grammars():
     rules.append(rule("arep", ("atomicrepeat", ("choice", [S("ab"), S("a")]))))
     rules.append(rule("arep_ws", ("seq", "0", [WS_SKIP, S("a"), WS_SKIP])))
     gs.append(dict(gid="rep_misc", rules=rules, skipped=WS_SKIP))
+    return gs
+
+
+def nf_grammars():
+    """C19: the counted repetitions with MIN = 0 as `NeverFailedTypedNode` — `RepeatMin<Skipped<T, Skip, K>, 0>` and
+    `RepeatMinMax<Skipped<T, Skip, K>, 0, MAX>` (`parse_with` / `check_with`: loops of their own, a private tracker):
+    (a) called directly (items `nf`), K in 0..2, MAX in none, 0..4, element kinds as in `rep_grammars` plus elements that can
+    match without consuming (bounded forms only: the unbounded loop would not terminate) and stack operations starting from
+    a non-empty stack; (b) as the `$ignored` argument of `rule!` (trailing skip of the full entries)."""
+    gs = []
+    E = ("ref", "E", "0")
+    base = lambda: [ws_rule(), rule("E", ("choice", [S("ab"), S("a")])), rule("B", S("b"))]
+    PRE_B = ("opt", ("ref", "B", "0"))          # leaves an attempt in the caller's tracker, may move the cursor
+    P2 = ("seq", "0", [("push", ("choice", [S("a"), S("b")])), ("push", ("choice", [S("b"), S("a")]))])
+    consuming = {
+        "s": (("empty",), S("a")),
+        "r": (PRE_B, E),                                   # elements and skips carry spans (rule structs)
+        "c": (("empty",), ("choice", [S("ab"), S("a")])),
+        "n": (("empty",), ("rep", "1", 1, 2, S("a"))),
+        "k": (("push", ("opt", S("b"))), ("seq", "0", [("push", S("a")), ("pop",)])),
+    }
+    for ek, (pre, el) in consuming.items():
+        items = []
+        for k in (0, 1, 2):
+            for mx in (None, 0, 1, 2, 3, 4):
+                items.append(dict(name=f"nf_{k}_{'u' if mx is None else mx}", k=k, max=mx, pre=pre, elem=el))
+        gs.append(dict(gid=f"rep_nf_{ek}", rules=base(), skipped=WS_SKIP, nf=items))
+    nullable = {
+        "o": (("empty",), ("opt", E)),
+        "e": (PRE_B, ("choice", [S("ab"), ("empty",)])),
+        "p": (("push", ("opt", S("a"))), ("peek",)),        # PEEK of a possibly empty entry
+    }
+    for ek, (pre, el) in nullable.items():
+        items = []
+        for k in (0, 1):
+            for mx in (0, 1, 2, 3, 4):
+                items.append(dict(name=f"nf_{k}_{mx}", k=k, max=mx, pre=pre, elem=el))
+        gs.append(dict(gid=f"rep_nf_{ek}", rules=base(), skipped=WS_SKIP, nf=items))
+    # stack-consuming elements: DROP / POP on a two-entry stack (the unbounded forms stop when the stack is empty)
+    items = []
+    for k in (0, 1):
+        for mx in (None, 0, 1, 2, 3):
+            nm = f"{k}_{'u' if mx is None else mx}"
+            items.append(dict(name=f"nf_d_{nm}", k=k, max=mx, pre=P2, elem=("drop",)))
+            items.append(dict(name=f"nf_q_{nm}", k=k, max=mx, pre=P2, elem=("pop",)))
+            items.append(dict(name=f"nf_x_{nm}", k=k, max=mx, pre=P2, elem=("seq", "0", [("pop",), S("a")])))
+    gs.append(dict(gid="rep_nf_stack", rules=base(), skipped=WS_SKIP, nf=items))
+    # (b) `$ignored`
+    rules = base()
+    els = {"w": ("ref", "WS", "0"), "b": S("b"), "c": ("choice", [S(" "), ("ref", "B", "0")])}
+    for ek, el in els.items():
+        for k in (0, 1):
+            for mx in (None, 0, 1, 2, 4):
+                nm = f"{ek}_{k}_{'u' if mx is None else mx}"
+                r = rule(f"ig_{nm}", ("seq", "1", [S("a"), ("opt", S("a"))]), atom="false")
+                r["ignored"] = dict(k=k, max=mx, elem=el)
+                rules.append(r)
+    for atom in ("INHERITED", "true"):
+        r = rule(f"ig_at_{atom}", S("a"), atom=atom)
+        r["ignored"] = dict(k=1, max=2, elem=S("b"))
+        rules.append(r)
+    gs.append(dict(gid="rep_nf_ign", rules=rules, skipped=WS_SKIP))
     return gs
 
 
@@ -357,4 +477,4 @@ def leaf_grammars():
 
 
 def all_raw():
-    return rep_grammars() + slice_grammars() + arity_grammars() + leaf_grammars()
+    return rep_grammars() + nf_grammars() + slice_grammars() + arity_grammars() + leaf_grammars()
